@@ -4,7 +4,6 @@ package props
 // root-cause oriented classification of a divergence.
 
 import (
-	"regexp"
 	"regexp/syntax"
 	"sort"
 	"strings"
@@ -51,31 +50,31 @@ func c11Nodes(root *syntax.Regexp) []c11NodeRef {
 	return out
 }
 
-// c11Reductions returns candidate smaller patterns (as strings) derived from the AST of pattern.
-func c11Reductions(pattern string) []string {
+// c11Reduce walks candidate smaller patterns derived from the AST of pattern, nodes nearest to the
+// root first (big cuts first), and returns the first one accepted by try ("" when none is).
+// Candidates are produced lazily: every try costs two regexp compilations in the caller.
+func c11Reduce(pattern string, try func(cand string) bool, exhausted func() bool) string {
 	root, err := c11Parse(pattern)
 	if err != nil {
-		return nil
+		return ""
 	}
-	n := len(c11Nodes(root))
+	nodes := c11Nodes(root)
+	n := len(nodes)
+	// breadth-first order: depth of each node
+	depth := make(map[*syntax.Regexp]int, n)
+	order := make([]int, n)
+	for i, ref := range nodes {
+		if ref.parent != nil {
+			depth[ref.n] = depth[ref.parent] + 1
+		}
+		order[i] = i
+	}
+	sort.SliceStable(order, func(a, b int) bool { return depth[nodes[order[a]].n] < depth[nodes[order[b]].n] })
 	seen := map[string]bool{pattern: true}
-	var out []string
-	emit := func(t *syntax.Regexp) {
-		s := t.String()
-		if seen[s] || len(s) > len(pattern)+16 {
-			return
-		}
-		if _, err := regexp.Compile(c11Wrap + s); err != nil {
-			return
-		}
-		seen[s] = true
-		out = append(out, s)
-	}
 	empty := func() *syntax.Regexp { return &syntax.Regexp{Op: syntax.OpEmptyMatch} }
-	for i := 0; i < n; i++ {
-		base := c11Nodes(root)[i]
+	for _, i := range order {
+		base := nodes[i]
 		nsub := len(base.n.Sub)
-		// number of variants for this node
 		variants := 1 + nsub // replace node by empty; hoist each child
 		switch base.n.Op {
 		case syntax.OpConcat, syntax.OpAlternate:
@@ -86,6 +85,9 @@ func c11Reductions(pattern string) []string {
 			variants++ // simplify to [a-c]
 		}
 		for v := 0; v < variants; v++ {
+			if exhausted() {
+				return ""
+			}
 			t := c11Clone(root)
 			ref := c11Nodes(t)[i]
 			node := ref.n
@@ -128,12 +130,17 @@ func c11Reductions(pattern string) []string {
 					node.Rune = []rune{'a', 'c'}
 				}
 			}
-			emit(t)
+			cand := t.String()
+			if seen[cand] || len(cand) >= len(pattern) {
+				continue
+			}
+			seen[cand] = true
+			if try(cand) {
+				return cand
+			}
 		}
 	}
-	// shortest first: prefer big cuts
-	sort.SliceStable(out, func(a, b int) bool { return len(out[a]) < len(out[b]) })
-	return out
+	return ""
 }
 
 // c11Minimise shrinks (pattern, input) while still(pattern, input) holds. budget bounds the number
@@ -161,6 +168,16 @@ func c11Minimise(pattern, input string, budget int, still func(p, in string) boo
 	}
 	for progress := true; progress && calls < budget; {
 		progress = false
+		if patternOK {
+			for calls < budget {
+				cand := c11Reduce(pattern, func(c string) bool { return try(c, input) }, func() bool { return calls >= budget })
+				if cand == "" {
+					break
+				}
+				pattern = cand
+				progress = true
+			}
+		}
 		// input: remove chunks, halving the chunk size
 		for sz := (len(input) + 1) / 2; sz >= 1; sz /= 2 {
 			for i := 0; i+sz <= len(input); {
@@ -183,22 +200,6 @@ func c11Minimise(pattern, input string, budget int, still func(p, in string) boo
 				if try(pattern, cand) {
 					input = cand
 					progress = true
-					break
-				}
-			}
-		}
-		if !patternOK {
-			continue
-		}
-		for again := true; again && calls < budget; {
-			again = false
-			for _, cand := range c11Reductions(pattern) {
-				if len(cand) >= len(pattern) {
-					continue
-				}
-				if try(cand, input) {
-					pattern = cand
-					again, progress = true, true
 					break
 				}
 			}
@@ -250,6 +251,8 @@ func c11Features(pattern string) []string {
 			}
 		case syntax.OpAlternate:
 			f["alt"] = true
+		case syntax.OpQuest, syntax.OpStar:
+			f["optional"] = true
 		case syntax.OpBeginLine, syntax.OpEndLine:
 			f["line-anchor"] = true
 		case syntax.OpCapture:
